@@ -18,6 +18,10 @@ import (
 // EnforceUTF8 reports whether to enforce strict UTF-8 validation.
 func EnforceUTF8(fd protoreflect.FieldDescriptor) bool {
 	if flags.ProtoLegacy || fd.Syntax() == protoreflect.Editions {
+		if xtd, ok := fd.(protoreflect.ExtensionTypeDescriptor); ok {
+			// Extension types wrap the descriptor that carries the resolved features.
+			fd = xtd.Descriptor()
+		}
 		if fd, ok := fd.(interface{ EnforceUTF8() bool }); ok {
 			return fd.EnforceUTF8()
 		}
